@@ -65,6 +65,23 @@ class _Baton:
             pass
 
 
+class _ActorNames:
+    """Deterministic, per-actor tempfile names (tempfile's random names would make traces,
+    footprints and replays differ between executions)."""
+
+    def __init__(self, n):
+        self.c = [0] * (n + 1)
+
+    def __iter__(self):
+        return self
+
+    def __next__(self):
+        a = getattr(fsint._tls, "actor", None)
+        i = a if isinstance(a, int) and a < len(self.c) - 1 else len(self.c) - 1
+        self.c[i] += 1
+        return "vt%d_%04d" % (i, self.c[i])
+
+
 class _Worker:
     """Long-lived actor thread (creating a thread costs ~2 ms in this sandbox)."""
 
@@ -205,6 +222,9 @@ class Explorer:
         if os.path.exists(root):
             shutil.rmtree(root)
         _copytree(self.template, root)
+        import tempfile
+
+        tempfile._name_sequence = _ActorNames(n)
         ctl = SchedController(root, n)
         ex = Execution()
         ex.root = root
